@@ -17,7 +17,7 @@ LEVEL = "exploration"
 RULE = ("Sequences of 1-8 rows mixing valid reactions (C01's generator, size-capped) with every malformed class "
         "(unparsable SMILES, zero / two / three '>' separators, reagent-style A>B>C, empty string, empty sides, "
         "surrounding blanks, missing values None/NaN) at drawn positions x batch size 1..n+1/None x source form "
-        "(list of str, list of dict with pass-through keys, CSV Dataset, JSON Dataset, CLI run through "
+        "(list of str, list of dict with pass-through keys, CSV Dataset, JSON Dataset - the non-list forms with and without an own 'id' column in five styles -, CLI run through "
         "setup_argparser()/cmd_run with --out-columns; thorough adds real `python -m synrbl run` subprocesses). "
         "Oracle: len(out)==len(in); row i describes input i (input_reaction == unmapped input for valid rows; "
         "malformed rows: unsolved, reaction == raw value, non-empty issue); each valid row equals the row the same "
@@ -66,7 +66,24 @@ def row_sequence(draw):
             rows.append(draw(valid)[0])
     form = draw(st.sampled_from(FORMS))
     bs = draw(st.one_of(st.none(), st.integers(1, n + 1)))
-    return {"rows": rows, "form": form, "batch_size": bs}
+    # datasets usually carry their own identifier column (the README's CSV has 'id,reaction'); the pipeline uses
+    # the same column name internally, so generate it in several styles
+    ids = draw(st.sampled_from([None, None, "zero-based", "one-based", "reversed", "strings", "constant"]))
+    return {"rows": rows, "form": form, "batch_size": bs, "ids": ids}
+
+
+def make_ids(style, n):
+    if style is None:
+        return None
+    if style == "zero-based":
+        return list(range(n))
+    if style == "one-based":
+        return list(range(1, n + 1))
+    if style == "reversed":
+        return list(range(n - 1, -1, -1))
+    if style == "strings":
+        return ["rx-%d" % (7 * i + 3) for i in range(n)]
+    return [5] * n
 
 
 def _alone(rxn):
@@ -84,6 +101,7 @@ def _norm_cell(v):
 def run_form(case, workdir):
     """-> dict(rows=..., stats=..., tags=[...] or None, aborted=bool, error=str|None)"""
     rows_in, form, bs = case["rows"], case["form"], case.get("batch_size")
+    ids = make_ids(case.get("ids"), len(rows_in))
     out = {"rows": None, "stats": None, "tags": None, "aborted": False, "error": None, "effective": list(rows_in)}
     b = pipe.balancer(n_jobs=1, threshold=0)
     stats = {}
@@ -94,15 +112,17 @@ def run_form(case, workdir):
             data = []
             for i, v in enumerate(rows_in):
                 d = {"reaction": v, "tag": "t%d" % i, "note": "x"}
+                if ids is not None:
+                    d["id"] = ids[i]
                 data.append(d)
             out["rows"] = b.rebalance(data, output_dict=True, stats=stats, batch_size=bs)
         elif form in ("csv", "cli"):
             src = os.path.join(workdir, "in.csv")
             with open(src, "w", newline="") as f:
                 w = csv.writer(f)
-                w.writerow(["reaction", "tag"])
+                w.writerow(["reaction", "tag"] + (["id"] if ids is not None else []))
                 for i, v in enumerate(rows_in):
-                    w.writerow(["" if _is_missing(v) else v, "t%d" % i])
+                    w.writerow(["" if _is_missing(v) else v, "t%d" % i] + ([ids[i]] if ids is not None else []))
             if form == "csv":
                 from synrbl.SynUtils.batching import Dataset
                 out["effective"] = ["" if _is_missing(v) else v for v in rows_in]
@@ -133,7 +153,8 @@ def run_form(case, workdir):
         elif form == "json":
             src = os.path.join(workdir, "in.json")
             with open(src, "w") as f:
-                json.dump([{"reaction": (None if _is_missing(v) else v), "tag": "t%d" % i} for i, v in enumerate(rows_in)], f)
+                json.dump([dict({"reaction": (None if _is_missing(v) else v), "tag": "t%d" % i},
+                                **({"id": ids[i]} if ids is not None else {})) for i, v in enumerate(rows_in)], f)
             from synrbl.SynUtils.batching import Dataset
             out["effective"] = [None if _is_missing(v) else v for v in rows_in]
             out["rows"] = b.rebalance(Dataset(src), output_dict=True, stats=stats, batch_size=bs)
@@ -210,6 +231,8 @@ def check_case(case, spec=None):
     eff = r["effective"]
     kinds = [classify(v) for v in eff]
     res.tag("form:" + form)
+    if case.get("ids"):
+        res.tag("own-id-column:" + case["ids"])
     for k in set(kinds):
         res.tag("has:" + k)
     n = len(rows_in)
@@ -353,7 +376,8 @@ def _enum_cases(spec):
                 for bs in (None, 1, 2):
                     j += 1
                     if j % spec["of"] == spec["part"]:
-                        yield {"rows": rows, "form": form, "batch_size": bs}
+                        yield {"rows": rows, "form": form, "batch_size": bs,
+                               "ids": [None, "one-based", "zero-based", "reversed"][j % 4] if form != "list_str" else None}
 
 
 def run_shard(spec, seed, tier, shard):
